@@ -65,4 +65,10 @@ def make_job(job_settings=None, global_settings=None, author='author', repo=None
     job.git = SimpleNamespace(repo=None, cascade=None, src_branch=None, dst_branch=None)
     job.status = ''
     job.details = ''
+    import datetime
+    job.start_time = datetime.datetime(2020, 1, 1)
+    job.end_time = None
+    job.id = 'stub'
+    job.type = 'PullRequestJob'
+    job.user = ''
     return job
